@@ -273,6 +273,7 @@ pub fn eval_offline(req: &str, ops_s: &str, sets_s: &str) -> Case {
     out.push(format!("PK={}", pkgs.join(",")));
     let mut query_pkgs = pkgs.clone();
     query_pkgs.push("nosuch".to_string());
+    let mut ranks: Vec<(usize, std::cmp::Reverse<usize>)> = vec![];
     for p in &query_pkgs {
         let vs: Option<Vec<u32>> = prov.versions(p).map(|it| it.cloned().collect());
         let want: Option<Vec<u32>> = reference.get(p).map(|m| m.keys().cloned().collect());
@@ -293,7 +294,11 @@ pub fn eval_offline(req: &str, ops_s: &str, sets_s: &str) -> Case {
                 }
             };
             let want = match reference.get(p).and_then(|m| m.get(&v)) {
-                None => "U its dependencies could not be determined".to_string(),
+                None => match &d {
+                    // the reason text is not fixed by the property: any `Unavailable` is accepted
+                    Dependencies::Unavailable(_) => txt.clone(),
+                    _ => "U <some reason>".to_string(),
+                },
                 Some(m) => format!("A {}", m.iter().map(|(q, s)| format!("{}={}", q, s.to_machine())).collect::<Vec<_>>().join(",")),
             };
             if txt != want {
@@ -301,7 +306,7 @@ pub fn eval_offline(req: &str, ops_s: &str, sets_s: &str) -> Case {
             }
             out.push(format!("GD {} {}={}", p, v, txt));
         }
-        let mut last_count: Option<(usize, std::cmp::Reverse<usize>)> = None;
+
         for s in &sets {
             let c = prov.choose_version(p, s).unwrap();
             let matching: Vec<u32> = reference.get(p).map(|m| m.keys().filter(|v| s.contains(v)).cloned().collect()).unwrap_or_default();
@@ -309,16 +314,15 @@ pub fn eval_offline(req: &str, ops_s: &str, sets_s: &str) -> Case {
                 set(format!("choose_version({}, {}) = {:?} expected {:?}", p, s, c, matching.last()));
             }
             let pr = prov.prioritize(p, s);
-            if pr.0 != matching.len() {
-                set(format!("prioritize({}, {}) counts {} expected {}", p, s, pr.0, matching.len()));
-            }
-            if let Some((n, prev)) = last_count {
-                // fewer matching versions => strictly higher priority
-                if (matching.len() < n) != (pr > prev) || (matching.len() == n) != (pr == prev) {
+            // (the property fixes the ranking, not the representation `Reverse(count)`; the count itself is
+            // compared with the model by the mirror)
+            // fewer matching versions => strictly higher priority: against every earlier (package, set)
+            for (n, prev) in &ranks {
+                if (matching.len() < *n) != (pr > *prev) || (matching.len() == *n) != (pr == *prev) {
                     set("prioritize does not rank fewer matching versions strictly higher".into());
                 }
             }
-            last_count = Some((matching.len(), pr));
+            ranks.push((matching.len(), pr));
             out.push(format!("CV {} {}={};{}", p, s.to_machine(), c.map(|v| v.to_string()).unwrap_or("-".into()), matching.len()));
         }
     }
@@ -466,7 +470,8 @@ pub fn eval_serde_semver(req: &str, ma: u32, mi: u32, pa: u32) -> Case {
 }
 
 fn resolve_text(p: &OfflineDependencyProvider<String, VS>, root: &str, rv: u32) -> String {
-    match resolve(p, root.to_string(), rv) {
+    let line = crate::eval::CURRENT_LINE.with(|l| l.borrow().clone());
+    match crate::solver::watched(line, || resolve(p, root.to_string(), rv)) {
         Ok(sol) => {
             let m: BTreeMap<String, u32> = sol.into_iter().collect();
             format!("ok {:?}", m)
@@ -617,13 +622,18 @@ impl DependencyProvider for IntProvider {
 }
 
 fn run_text_int(reg: &crate::solver::Registry<VS>, rv: u32, newest: bool) -> String {
-    let idx = |p: &str| -> u32 { crate::solver::NAMES.iter().position(|n| *n == p).map(|i| i as u32).unwrap_or(99) };
+    // the root is 0, the other packages are numbered in name order: an injective renaming
+    let mut names: Vec<String> = reg.packages().into_iter().filter(|p| p != "root").collect();
+    names.sort();
+    let idx = |p: &str| -> u32 { if p == "root" { 0 } else { 1 + names.iter().position(|n| n == p).expect("package") as u32 } };
     let mut entries = BTreeMap::new();
     for ((p, v), d) in &reg.entries {
         entries.insert((idx(p), *v), d.clone().map(|ds| ds.into_iter().map(|(q, s)| (idx(&q), s)).collect()));
     }
     let prov = IntProvider { entries, newest, log: Default::default() };
-    let res = std::panic::catch_unwind(std::panic::AssertUnwindSafe(|| resolve(&prov, 0u32, rv)));
+    let res = crate::solver::watched(format!("det|{}|root|{}|{}", reg.to_text(), rv, if newest { "newest_fewest" } else { "oldest_fewest" }), || {
+        std::panic::catch_unwind(std::panic::AssertUnwindSafe(|| resolve(&prov, 0u32, rv)))
+    });
     let out = match res {
         Err(_) => "panic".to_string(),
         Ok(Ok(sol)) => {
